@@ -321,3 +321,6 @@ def run(ctx, led):
              "nogood deletion", j4, ctx)
     run_rule(led, "J5", "ARITY: the decision is read back with the arity it was written with", j5, ctx)
     run_rule(led, "J7", "no-learning resolver: the flipped decision carries a reason covering every earlier decision level (symbolic levels)", j7, ctx)
+    from . import minimiser
+    run_rule(led, "J8", "semantic minimiser: every folding step maps the values a record stands for to exactly those satisfying the folded predicate (decided on all records of a 5-value window)", minimiser.steps_exact, ctx)
+    run_rule(led, "J9", "semantic minimiser: the emitted predicates describe the record exactly relative to the root domain; holes leave the bounds before redundant holes are dropped", minimiser.emission_exact, ctx)
